@@ -313,7 +313,7 @@ def main():
         tooling('no obligations registered for this property')
 
     # 3. Kani run (one invocation, all harnesses in parallel)
-    default_budget = 150 if args.tier == 'quick' else 900
+    default_budget = 400 if args.tier == 'quick' else 1200
     results = {}
     kani_wall = 0.0
     if hs:
